@@ -60,6 +60,8 @@ def helperSendCounts : List (List Nat) := [[1], [1], [1], [1]]
 def readdirCountMatchesEntries : Bool := true
 /-- no method of SFTPServer calls Message.add()/add_adaptive_int(): request ids, counts and codes are written with add_int (4 bytes) whatever their value (AST) -/
 def responsesUseFixedWidthFields : Bool := true
+/-- SFTPFile._async_response: a pipelined write's answer is recognised by `num in self._reqs` (the whole collection) and exactly that number is removed (AST) -/
+def writeStatusMatchedById : Bool := true
 /-- SFTPClient._async_request: the packet is sent outside the region that holds self._lock (AST) -/
 def sendOutsideLock : Bool := true
 def sendUnderLock : Bool := !sendOutsideLock
